@@ -969,3 +969,6 @@ mod tests {
         }
     }
 }
+
+#[cfg(kani)]
+pub(crate) mod verif_kani;
